@@ -103,6 +103,10 @@ func Run(r *hx.Run, replay []hx.Case) {
 	var ids []string
 	if replay != nil {
 		for _, hc := range replay {
+			if hc.Kind == "redial" {
+				runRedial(r, pki, hc.ID, hc.Args)
+				continue
+			}
 			c, err := dialx.Parse(hc.Kind, hc.Args)
 			if err != nil {
 				r.Fail(hc.ID, "bad-case", err.Error())
@@ -115,6 +119,9 @@ func Run(r *hx.Run, replay []hx.Case) {
 		cases = generate(r, pki)
 		for range cases {
 			ids = append(ids, r.NewID())
+		}
+		for _, hc := range redialCases() {
+			runRedial(r, pki, r.NewID(), hc.Args)
 		}
 	}
 	runCases(r, pki, cases, ids)
